@@ -335,11 +335,58 @@ fn rp_icon_exception() -> Verdict {
     }
 }
 
+const DEFAULTS: [&str; 7] = ["getInfo.Response", "getInfo.CtapOptions", "clientPin.Response", "largeBlobs.Response", "makeCredential.Extensions", "getAssertion.ExtensionsInput", "getAssertion.ExtensionsOutput"];
+
+fn default_roundtrip(name: &str) -> Verdict {
+    use ctap_types::ctap2::*;
+    macro_rules! go {
+        ($t:ty) => {{
+            let v = <$t>::default();
+            let mut b1 = [0u8; 1024];
+            let e1 = cbor_smol::cbor_serialize(&v, &mut b1).map(|s| s.to_vec()).map_err(|e| format!("{:?}", e))?;
+            let d: $t = cbor_smol::cbor_deserialize(&e1).map_err(|e| format!("decode of the default's own encoding {}: {:?}", hex(&e1), e))?;
+            if d != v || d.clone() != v {
+                return Err(format!("decode(encode(default)) = {:?}, default = {:?}", d, v));
+            }
+            let mut b2 = [0u8; 1024];
+            let e2 = cbor_smol::cbor_serialize(&d, &mut b2).map(|s| s.to_vec()).map_err(|e| format!("{:?}", e))?;
+            if e1 != e2 {
+                return Err(format!("re-encoding differs: {} vs {}", hex(&e1), hex(&e2)));
+            }
+            match crate::refcbor::parse(&e1) {
+                Ok(p) if p.used == e1.len() && p.issues.is_empty() => Ok(()),
+                other => Err(format!("encoding {} is not canonical: {:?}", hex(&e1), other.map(|p| p.issues))),
+            }
+        }};
+    }
+    let r: std::result::Result<std::result::Result<(), String>, String> = guard(|| match name {
+        "getInfo.Response" => go!(get_info::Response),
+        "getInfo.CtapOptions" => go!(get_info::CtapOptions),
+        "clientPin.Response" => go!(client_pin::Response),
+        "largeBlobs.Response" => go!(large_blobs::Response),
+        "makeCredential.Extensions" => go!(make_credential::Extensions),
+        "getAssertion.ExtensionsInput" => go!(get_assertion::ExtensionsInput),
+        _ => go!(get_assertion::ExtensionsOutput),
+    });
+    match r {
+        Ok(Ok(())) => Verdict::pass(),
+        Ok(Err(e)) => Verdict::fail(format!("{}|{}|default-constructed", P, name), "round trip of the default value", e),
+        Err(p) => Verdict::fail(format!("{}|{}|default-constructed|panic", P, name), "no panic", p),
+    }
+}
+
 pub fn run(ctx: &'static Ctx) {
     ctx.rule("state = canonical encoding of a value of a bidirectional type (member subset, menu values); both round-trip directions are evaluated with the real encoder/decoder and the type's own equality; non-trivial = differs from the minimal anchor");
     ctx.assume("loss-free domain: names <= 64 bytes, at most two known algorithms, no relying-party icon (the documented exception, checked separately)");
     explore_types(ctx, P, |_p, name, b| check_rt(name, b));
     constructed(ctx);
+    sweep(ctx, "default-constructed values", DEFAULTS.len() as u64, "Default::default() of every type that offers it: decode(encode(v)) == v, the encoding is stable and canonical", |idx, l| {
+        l.nontrivial += 1;
+        let v = default_roundtrip(DEFAULTS[idx as usize]);
+        if !v.ok {
+            l.fail(ctx, idx, v, || json!({"kind": "default", "type": DEFAULTS[idx as usize]}));
+        }
+    });
     sweep(ctx, "rp icon exception", 1, "the only documented exception: icon accepted, not re-emitted", |idx, l| {
         l.nontrivial += 1;
         let v = rp_icon_exception();
@@ -362,6 +409,7 @@ pub fn replay_canonical(case: &Value) -> Verdict {
 pub fn replay(case: &Value) -> Verdict {
     match case["kind"].as_str() {
         Some("rp-icon") => rp_icon_exception(),
+        Some("default") => default_roundtrip(case["type"].as_str().unwrap()),
         Some("roundtrip") => check_rt(case["type"].as_str().unwrap(), &unhex(case["bytes"].as_str().unwrap())),
         _ => machinery_panic("C15: unknown replay kind"),
     }
